@@ -162,10 +162,15 @@ func (h *History) histTerm() string {
 	for _, op := range h.Ops {
 		ops = append(ops, fmt.Sprintf("HDeliver %d %d %s %s", idx[op.Node], op.Now, w.obsTerm(op.Obs), optDump(w, op.Dump)))
 	}
+	crashes := []string{}
+	for _, c := range h.Crashes {
+		crashes = append(crashes, fmt.Sprintf("(mkcrash %d %d %s %s %s)", c.Op, c.Resume, coqgen.Bool(c.RestartErr), w.dumpTerm(c.Restart), w.dumpTerm(c.Final)))
+	}
 	var sb strings.Builder
-	fmt.Fprintf(&sb, "(mkhist %s %d\n %s\n %s\n %s\n %s\n %s %s)",
+	fmt.Fprintf(&sb, "(mkhist %s %d\n %s\n %s\n %s\n %s\n %s %s\n %s)",
 		w.ids.Addr(address.GenesisAddress), w.ids.Key(teamKey()),
 		w.blockTerm(w.genesis),
-		coqgen.List(blocks), coqgen.List(valid), "["+strings.Join(ops, ";\n  ")+"]", optDump(w, h.Fresh), coqgen.Bool(h.FreshOK))
+		coqgen.List(blocks), coqgen.List(valid), "["+strings.Join(ops, ";\n  ")+"]", optDump(w, h.Fresh), coqgen.Bool(h.FreshOK),
+		"["+strings.Join(crashes, ";\n  ")+"]")
 	return sb.String()
 }
